@@ -67,7 +67,7 @@ use sos_vault::{
     Header, SharedAccess, Summary, Vault, VaultMeta,
 };
 use std::collections::BTreeMap;
-use std::io::{Seek, Write};
+use std::io::Write;
 use std::panic::{catch_unwind, AssertUnwindSafe};
 use std::path::{Path, PathBuf};
 use std::rc::Rc;
@@ -357,6 +357,7 @@ struct Target {
 }
 
 struct Plan {
+    #[allow(dead_code)]
     label: String,
     entries: Vec<usize>,
     corpus: Vec<Arc<Vec<u8>>>,
@@ -738,6 +739,7 @@ async fn build_plans(
                 let v = $gen;
                 all.push(enc(&v).await);
             }
+            #[allow(unused_mut)]
             let mut entries = vec![idx(&format!("decode<{}>", $name))];
             $( entries.push(idx($extra)); )*
             plans.push(Plan { label: $name.to_string(), entries, corpus: pick_small(all, b.items), commits: vec![], budget: b.mem });
@@ -1022,6 +1024,7 @@ struct Outcome {
     panics: Vec<(String, String)>,
     peak: usize,
     largest: usize,
+    micros: u64,
 }
 
 fn worker_main(rx: mpsc::Receiver<Job>, tx: mpsc::Sender<Outcome>, ctx: Arc<Ctx>) {
@@ -1036,6 +1039,7 @@ fn worker_main(rx: mpsc::Receiver<Job>, tx: mpsc::Sender<Outcome>, ctx: Arc<Ctx>
         }
         let _ = take_panics();
         let fut = (t.run)(job.input.clone(), ctx.clone(), job.commit);
+        let t0 = Instant::now();
         vkit::alloc::begin();
         let r = catch_unwind(AssertUnwindSafe(|| {
             rt.block_on(async {
@@ -1056,7 +1060,8 @@ fn worker_main(rx: mpsc::Receiver<Job>, tx: mpsc::Sender<Outcome>, ctx: Arc<Ctx>
                 (Err(CallErr::Err("panic".into())), Some(msg))
             }
         };
-        if tx.send(Outcome { result, unwound, panics, peak, largest }).is_err() {
+        let micros = t0.elapsed().as_micros() as u64;
+        if tx.send(Outcome { result, unwound, panics, peak, largest, micros }).is_err() {
             return;
         }
     }
@@ -1142,7 +1147,7 @@ fn child_main(args: &Args, rep: &mut Reporter) {
     let budgets = if thorough {
         Budgets { items: 6, mem: 40_000, wire: 20_000, files: 2_500, zips: 1_500 }
     } else {
-        Budgets { items: 3, mem: 2_400, wire: 1_000, files: 320, zips: 260 }
+        Budgets { items: 3, mem: 2_000, wire: 900, files: 280, zips: 200 }
     };
 
     // fixed account id: part of file names inside archives only
@@ -1208,10 +1213,12 @@ fn child_main(args: &Args, rep: &mut Reporter) {
                     }
                     // (d) attribute a process death to this exact input
                     if let Some(f) = current.as_mut() {
-                        let _ = f.set_len(0);
-                        let _ = f.seek(std::io::SeekFrom::Start(0));
-                        let _ = write!(f, "{} {} {} {}\n{}\n{}\n{}\n{}\n", pi, item, mi, ep, name, m.desc(), hex_trunc(&input, 4096), input.len());
-                        let _ = f.flush();
+                        // one positioned write; the first line carries the
+                        // length of the record so that a stale tail of a
+                        // longer, older record is ignored by the reader
+                        let body = format!("{} {} {} {}\n{}\n{}\n{}\n{}\n", pi, item, mi, ep, name, m.desc(), hex_trunc(&input, 4096), input.len());
+                        let record = format!("{:08}\n{}", body.len(), body);
+                        let _ = std::os::unix::fs::FileExt::write_all_at(f, record.as_bytes(), 0);
                     }
                     if worker.tx.send(Job { entry: *ei, input: input.clone(), commit }).is_err() {
                         worker = spawn_worker(ctx.clone());
@@ -1275,6 +1282,8 @@ fn judge(
     }
     stats.max(&format!("max:peak_alloc:{name}"), out.peak as u64);
     stats.max(&format!("max:largest_alloc:{name}"), out.largest as u64);
+    stats.max(&format!("max:micros:{name}"), out.micros);
+    stats.count(&format!("total_micros:{name}"), out.micros);
     let replay = |extra: Value| json!({"entry": name, "mutation": m.desc(), "input_hex": hex_trunc(input, 8192), "input_len": input.len(), "original_hex": hex_trunc(orig, 2048), "detail": extra});
 
     // (a) panics
@@ -1393,7 +1402,56 @@ fn merge_child_out(rep: &mut Reporter, path: &Path) {
     }
 }
 
+/// `current_input.txt`: `<8-digit length>\n<record>`; anything after the
+/// record is a stale tail.
+fn read_current_input(path: &Path) -> String {
+    let raw = std::fs::read(path).unwrap_or_default();
+    let text = String::from_utf8_lossy(&raw).to_string();
+    let Some((len, rest)) = text.split_once('\n') else {
+        return String::new();
+    };
+    let n: usize = len.trim().parse().unwrap_or(0);
+    rest.get(..n.min(rest.len())).unwrap_or("").to_string()
+}
+
+/// Re-run one recorded input in this process, unmonitored: a panic shows
+/// up as an ordinary Rust panic of this process, an allocation failure as
+/// an abort. The file is a violation line of the report (or its `replay`
+/// object) with `entry` and an untruncated `input_hex`.
+fn replay_main(args: &Args, rep: &mut Reporter, file: &Path) {
+    let text = std::fs::read_to_string(file).unwrap_or_default();
+    let v: Value = serde_json::from_str(text.lines().next().unwrap_or("")).unwrap_or(Value::Null);
+    let r = if v["replay"].is_object() { v["replay"].clone() } else { v };
+    let entry = r["entry"].as_str().unwrap_or("").to_string();
+    let Ok(input) = hex::decode(r["input_hex"].as_str().unwrap_or("zz")) else {
+        rep.inconclusive("C15 replay: input_hex is missing or truncated");
+        return;
+    };
+    let table = targets();
+    let Some(t) = table.iter().find(|t| t.name == entry) else {
+        rep.inconclusive(&format!("C15 replay: unknown entry {entry}"));
+        return;
+    };
+    let _ = std::fs::create_dir_all(&args.dir);
+    if let Some(f) = t.file {
+        let _ = std::fs::write(args.dir.join(f), &input);
+    }
+    let ctx = Arc::new(Ctx { dir: args.dir.clone(), account_id: [0x15u8; 20].into() });
+    let rt = tokio::runtime::Builder::new_current_thread().enable_all().build().unwrap();
+    let commit = vkit::sha256(b"replay");
+    eprintln!("replaying {entry} on {} bytes", input.len());
+    vkit::alloc::begin();
+    let result = rt.block_on((t.run)(Arc::new(input), ctx, commit));
+    let (peak, largest) = vkit::alloc::end();
+    eprintln!("result: {result:?}; peak alloc {peak} bytes, largest request {largest} bytes");
+    rep.count("replayed", 1);
+}
+
 pub fn run(args: &Args, rep: &mut Reporter) {
+    if let Some(file) = args.replay.clone() {
+        replay_main(args, rep, &file);
+        return;
+    }
     if args.extra.iter().any(|a| a == "--c15-child") {
         child_main(args, rep);
         return;
@@ -1410,6 +1468,7 @@ pub fn run(args: &Args, rep: &mut Reporter) {
     let _ = std::fs::create_dir_all(&args.dir);
     let mut resume = (0usize, 0usize, 0usize, 0usize);
     let mut aborts: BTreeMap<String, u64> = BTreeMap::new();
+    let mut aborts_at: BTreeMap<(usize, usize), u64> = BTreeMap::new();
     let mut disabled: Vec<String> = vec![];
     let mut attempt = 0u64;
     loop {
@@ -1475,7 +1534,7 @@ pub fn run(args: &Args, rep: &mut Reporter) {
             break;
         }
         // the child died: attribute it to the input it was working on
-        let current = std::fs::read_to_string(args.dir.join("current_input.txt")).unwrap_or_default();
+        let current = read_current_input(&args.dir.join("current_input.txt"));
         let mut lines = current.lines();
         let pos: Vec<usize> = lines.next().unwrap_or("").split(' ').filter_map(|x| x.parse().ok()).collect();
         let entry = lines.next().unwrap_or("unknown").to_string();
@@ -1492,7 +1551,13 @@ pub fn run(args: &Args, rep: &mut Reporter) {
             rep.inconclusive(&format!("C15: worker process ended ({status}) before handling any input: {last}"));
             break;
         }
-        let how = if last.contains("memory allocation of") {
+        let oom = stderr.lines().find(|l| l.contains("memory allocation of")).map(|l| l.trim().to_string());
+        let frame = stderr.lines().map(|l| l.trim()).find(|l| l.contains(": sos_") || l.contains(" sos_")).map(|l| l.to_string()).unwrap_or_default();
+        let last = match &oom {
+            Some(l) => format!("{l}; innermost repository frame: {frame}"),
+            None => last,
+        };
+        let how = if oom.is_some() {
             "alloc_failure".to_string()
         } else {
             #[cfg(unix)]
@@ -1516,13 +1581,23 @@ pub fn run(args: &Args, rep: &mut Reporter) {
         );
         let n = aborts.entry(entry.clone()).or_insert(0);
         *n += 1;
-        if *n >= 4 && !disabled.contains(&entry) {
-            // enough evidence: stop feeding this entry point so that the
+        if *n >= 24 && !disabled.contains(&entry) {
+            // safety net: stop feeding this entry point so that the
             // remaining entry points get their share of the budget
             disabled.push(entry.clone());
             rep.count(&format!("entry_disabled_after_aborts:{entry}"), 1);
         }
-        resume = (pos[0], pos[1], pos[2], pos[3] + 1);
+        let k = aborts_at.entry((pos[0], pos[1])).or_insert(0);
+        *k += 1;
+        if *k >= 2 {
+            // the same corpus item killed the process twice: its
+            // neighbouring mutations would do the same; go on with the
+            // next plan (each restart costs a process start)
+            rep.count(&format!("item_abandoned_after_aborts:{entry}"), 1);
+            resume = (pos[0] + 1, pos[1], 0, 0);
+        } else {
+            resume = (pos[0], pos[1], pos[2], pos[3] + 1);
+        }
     }
     let _ = std::fs::remove_file(args.dir.join("child.stderr"));
     rep.set_extra("bound", json!({"alloc": "peak > 3*16 MiB + 64*len", "per_input_timeout_s": 20, "budget_s": total_s}));
